@@ -22,7 +22,7 @@ RULE = ("seeded random circuits (trees with heralded sub-circuits, directly decl
 MANDATORY = ["bunched_input", "vacuum_input", "herald_in_ne_out", "herald_photons", "lossy",
              "explicit_outputs", "input_list", "reject_wrong_length", "reject_negative",
              "reject_noninteger", "reject_bool", "reject_photon_mismatch", "reject_nonstate",
-             "simulator_reused_after_change", "five_or_more_photons", "seven_or_more_modes"]
+             "simulator_reused_after_change", "five_or_more_photons", "seven_or_more_modes", "same_call_repeated"]
 DECIDING = ["mon.sim_postconditions", "mon.sim_amplitudes_checked", "rejections_checked"]
 BUDGET = {"quick": 25, "thorough": 420}
 ASSUMPTIONS = ["reference amplitude = own Glynn permanent over the circuit's own U_full and heralds "
@@ -118,7 +118,19 @@ def run(ctx):
     rng = ctx.rng
     State = lw.State
     emu = lw.emulator
+    pool: list = []
     while not ctx.out_of_time():
+        # simulators used earlier must still answer as they did (no interference between objects)
+        for old_sim, a_in, a_out, arr0, fp0 in pool[:2]:
+            try:
+                if circmon.circuit_fingerprint(old_sim.circuit) == fp0:
+                    ctx.count("earlier_objects_rechecked")
+                    if not np.array_equal(old_sim.simulate(a_in, a_out).array, arr0):
+                        ctx.violation("an earlier Simulator answers differently after other simulators were used",
+                                      mechanism="earlier_object_changed", monitor="earlier-object re-read")
+            except Exception as e:  # noqa: BLE001
+                ctx.count("reread_raised:" + type(e).__name__)
+        circmon.drain()
         try:
             c, log = make_circuit(ctx, lw, rng)
         except Exception as e:  # noqa: BLE001  (construction problems are C02's business)
@@ -160,7 +172,15 @@ def run(ctx):
             if isinstance(arg_in, list): ctx.bucket("input_list")
             case = {"circuit": log, "inputs": [s.s for s in ins], "outputs": None if outs is None else [s.s for s in outs]}
             try:
-                sim.simulate(arg_in, outs)
+                r1 = sim.simulate(arg_in, outs)
+                if rng.random() < 0.3:
+                    r2 = sim.simulate(arg_in, outs)          # the same question again must give the same answer
+                    ctx.bucket("same_call_repeated")
+                    if not np.array_equal(r1.array, r2.array):
+                        ctx.violation("the same simulate() call repeated gave a different array", case=case,
+                                      mechanism="repeat_differs", monitor="repeated call")
+                pool.append((sim, arg_in, outs, np.array(r1.array, copy=True), circmon.circuit_fingerprint(c)))
+                del pool[:-4]
             except Exception as e:  # noqa: BLE001  - the monitor judges the exception path
                 ctx.count("simulate_raised:" + type(e).__name__)
             key = ((k, len(h["input"]), ne, hph, lossy), tuple(sorted(tuple(sorted(s.s)) for s in ins)), outs is None)
